@@ -9,13 +9,15 @@
 (***************************************************************************)
 EXTENDS LqParse, Json, TLC
 
-CONSTANT N
+CONSTANTS N, Ext     \* Ext: the alphabet with a block registered by the embedding program (and fewer standard classes)
 VARIABLES toks, st
 vars == <<toks, st>>
 
+Alpha == IF Ext THEN {"lqx_wrap", "endlqx_wrap", "if", "endif", "else", "for", "endfor", "comment", "endcomment", "capture", "endcapture", "text", "obj"}
+         ELSE Classes \ (XBlocks \cup XEnds)
 Init == toks = <<>> /\ st = Init0
 Next == /\ Len(toks) < N /\ st.status = "run"
-        /\ \E c \in Classes :
+        /\ \E c \in Alpha :
              /\ ~(c = "text" /\ toks # <<>> /\ toks[Len(toks)] = "text")      \* adjacent texts are one token
              /\ toks' = Append(toks, c)
              /\ st' = Step(st, c, Len(toks) + 1)
